@@ -920,6 +920,8 @@ func propC14(c *Ctx) {
 	flt := w.Fn("dig", "Integration.Filter")
 	fBlock := w.Field("dig", "Integration", "Block")
 	fBDName := w.Field("dig", "BlockData", "Name")
+	fColdefs := w.FieldOpt("dig", "Integration", "coldefs")
+	fDefBD := w.FieldOpt("dig", "coldef", "BlockData")
 	okNeeds := false
 	for _, call := range callsToFn(flt, w.Fn("shovel/glf", "New")) {
 		needs := call.Call.Args[0]
@@ -933,15 +935,35 @@ func propC14(c *Ctx) {
 			if !ok || len(vs) != 1 {
 				continue
 			}
+			// the name, possibly through local copies (def := ig.coldefs[i]; bd := def.BlockData; bd.Name)
 			root, chain := fieldChain(vs[0])
-			if !chainIs(chain, fBDName) {
+			for k := 0; k < 4; k++ {
+				al, isAl := stripConv(root).(*ssa.Alloc)
+				if !isAl {
+					break
+				}
+				cv := cellValue(al)
+				if cv == nil {
+					break
+				}
+				r2, c2 := fieldChain(cv)
+				root, chain = r2, append(append([]*types.Var{}, c2...), chain...)
+			}
+			fromDefs := false
+			if fColdefs != nil && fDefBD != nil && chainIs(chain, fDefBD, fBDName) {
+				fromDefs = true // one column definition per block field (C11 R11.1): its BlockData is that field
+			} else if !chainIs(chain, fBDName) {
 				continue
 			}
 			s, idx, ok := elemOf(root)
 			if !ok || !isInduction(idx) {
 				continue
 			}
-			if _, ch := fieldChain(s); len(ch) == 1 && ch[0] == fBlock {
+			srcOK := false
+			if _, ch := fieldChain(s); len(ch) == 1 && ((ch[0] == fBlock && !fromDefs) || (fromDefs && ch[0] == fColdefs)) {
+				srcOK = true
+			}
+			if srcOK {
 				// unconditional: the append's block is the loop body entry (dominated only by the loop condition)
 				condFree := true
 				for _, b := range flt.Blocks {
@@ -951,6 +973,12 @@ func propC14(c *Ctx) {
 					}
 					if bo, ok := iff.Cond.(*ssa.BinOp); ok && bo.Op == token.LSS && isInduction(bo.X) {
 						continue
+					}
+					// a definition without a block field (an event input) has nothing to contribute
+					if ec, ok := iff.Cond.(*ssa.Call); ok && fromDefs {
+						if cal := staticCallee(ec); cal != nil && cal.Name() == "Empty" && cal.Signature.Recv() != nil && repoNamedIs(cal.Signature.Recv().Type(), "dig", "BlockData") {
+							continue
+						}
 					}
 					condFree = false
 				}
